@@ -34,6 +34,9 @@ type c09Plan struct {
 	Resizes    []c09Resize `json:"resizes,omitempty"`
 	Ending     string      `json:"ending"` // passive | waitall | joinall | setworkers
 	LIFO       bool        `json:"lifo,omitempty"`
+	TooMany    int         `json:"too_many_threshold,omitempty"` // regulation thresholds (0 = pool default)
+	TooFew     int         `json:"too_few_threshold,omitempty"`
+	Pollers    int         `json:"state_pollers,omitempty"` // tasks calling State()/Status()/WorkerCount() while everything else runs
 }
 
 type lifoQueue struct{ q []pool.Task }
@@ -118,6 +121,13 @@ func c09Gen(r *simrt.RNG, tier string) interface{} {
 		p.Ending = "setworkers"
 	}
 	p.LIFO = r.Bool(0.15)
+	if r.Bool(0.3) {
+		p.TooMany = []int{1, 2, 2, 3, 5, 10}[r.Intn(6)]
+		p.TooFew = r.Intn(3)
+	}
+	if r.Bool(0.2) {
+		p.Pollers = 1 + r.Intn(2)
+	}
 	if r.Bool(0.15) {
 		// one pair of back-to-back submissions where the first task waits for the second:
 		// needs a second worker to be woken although the queue was not empty
@@ -193,6 +203,16 @@ func c09Shrink(pi interface{}) []interface{} {
 	if p.LIFO {
 		q := clone()
 		q.LIFO = false
+		out = append(out, q)
+	}
+	if p.TooMany != 0 || p.TooFew != 0 {
+		q := clone()
+		q.TooMany, q.TooFew = 0, 0
+		out = append(out, q)
+	}
+	if p.Pollers > 0 {
+		q := clone()
+		q.Pollers = 0
 		out = append(out, q)
 	}
 	if p.Ending != "passive" {
@@ -309,6 +329,16 @@ func c09Run(pi interface{}) {
 		st.tp = pool.NewThreadPool()
 	}
 	tp := st.tp
+	tooMany, tooFew := 0, 0
+	if p.TooMany != 0 || p.TooFew != 0 {
+		// non-default regulation thresholds; the callbacks run inside AddTask / getTask
+		if p.TooMany != 0 {
+			tp.TooManyThreshold = p.TooMany
+		}
+		tp.TooFewThreshold = p.TooFew
+		tp.TooManyCallback = func() { tooMany++; simrt.Count("regulation_too_many_callback") }
+		tp.TooFewCallback = func() { tooFew++; simrt.Count("regulation_too_few_callback") }
+	}
 	tp.SetWorkerCount(p.Workers, false)
 	lastCount := p.Workers
 
@@ -336,6 +366,22 @@ func c09Run(pi interface{}) {
 			}
 		})
 	}
+	pollStop := &hbFlag{}
+	var pollers simsync.WaitGroup
+	for i := 0; i < p.Pollers; i++ {
+		pollers.Add(1)
+		simrt.Go(fmt.Sprintf("poller%d", i), func() {
+			defer pollers.Done()
+			for !pollStop.get() {
+				// read-only calls that must return whatever else is going on
+				_ = tp.State()
+				_ = tp.Status()
+				_ = tp.WorkerCount()
+				simrt.Count("state_polls")
+				simtime.Sleep(7)
+			}
+		})
+	}
 	if len(p.Resizes) > 0 {
 		wg.Add(1)
 		rs := p.Resizes
@@ -360,6 +406,10 @@ func c09Run(pi interface{}) {
 		})
 	}
 	wg.Wait() // every AddTask / SetWorkerCount call has returned
+	stopPollers := func() {
+		pollStop.set()
+		pollers.Wait()
+	}
 
 	allDone := func(when string) {
 		for id := 0; id < st.nextID; id++ {
@@ -385,6 +435,7 @@ func c09Run(pi interface{}) {
 	switch p.Ending {
 	case "passive":
 		// call nothing: every accepted task must be started without a further call
+		stopPollers() // (State/Status/WorkerCount wake nobody; still: nothing at all is called from here on)
 		simrt.WaitQuiescent()
 		allDone("passive (no further call)")
 		if c := tp.WorkerCount(); c != lastCount {
@@ -393,9 +444,11 @@ func c09Run(pi interface{}) {
 		}
 	case "waitall":
 		tp.WaitAll()
+		stopPollers()
 		allDone("WaitAll returned")
 	case "joinall":
 		tp.JoinAll()
+		stopPollers()
 		allDone("JoinAll returned")
 		if c := tp.WorkerCount(); c != 0 {
 			simrt.Fail("oracle:joinall-workers", "joinall-workers", "JoinAll returned with %d workers", c)
@@ -411,6 +464,7 @@ func c09Run(pi interface{}) {
 		}
 		tp.SetWorkerCount(k, true)
 		lastCount = k
+		stopPollers()
 		simrt.WaitQuiescent()
 		allDone("after SetWorkerCount(k, true) and quiescence")
 		if c := tp.WorkerCount(); c != k {
